@@ -55,6 +55,7 @@ class Prop(object):
         u = []
         for lo in range(1, top + 1, 25):
             u.append(('payloads', {'lo': lo, 'hi': min(lo + 25, top + 1), 'seed': seed}))
+        u.append(('smallcrc', {}))
         u.append(('objects', {}))
         u.append(('wrongkind', {}))
         for i in range(10):
@@ -124,6 +125,39 @@ class Prop(object):
                 if probs:
                     r.viol('payload', {'kind': oc, 'mod3': n % 3}, {'lo': n, 'hi': n + 1, 'seed': case.get('seed', 0)}, label + ': ' + '; '.join(probs[:3]))
         r.samples.append({'lengths': [case['lo'], case['hi'] - 1]})
+        return r
+
+    def c_smallcrc(self, case):
+        """Payloads chosen so that the CRC-24 has one and two leading zero octets (and is zero-padded in its radix-64 form)."""
+        Blob = make_blob_class()
+        r = Res()
+        found = {1: [], 2: []}
+        n = 0
+        while (len(found[1]) < 6 or len(found[2]) < 2) and n < 400000:
+            data = b'crc' + n.to_bytes(4, 'big')
+            c = rarmor.crc24(data)
+            if c < 0x100 and len(found[2]) < 2:
+                found[2].append(data)
+            elif c < 0x10000 and len(found[1]) < 6:
+                found[1].append(data)
+            n += 1
+        for zeros, lst in found.items():
+            for data in lst:
+                r.states += 1
+                r.transitions += 2
+                try:
+                    text = str(Blob(data))
+                    probs = self._check_text(text, data, 'MESSAGE')
+                    from pgpy.types import Armorable
+                    d = Armorable.ascii_unarmor(text)
+                    if bytes(d['body']) != data:
+                        probs.append('PGPy decodes its own armor to other octets')
+                except Exception as e:
+                    probs = ['PGPy cannot read its own armor: %r' % (e,)]
+                r.outcomes['ok' if not probs else 'violation'] += 1
+                if probs:
+                    r.viol('smallcrc', {'kind': 'crc-leading-zero'}, case, 'payload %s whose CRC-24 has %d leading zero octet(s): %s' % (data.hex(), zeros, '; '.join(probs[:2])))
+        r.samples.append({'crc_leading_zero_octets': {k: len(v) for k, v in found.items()}})
         return r
 
     def _objects(self):
